@@ -56,7 +56,11 @@ pub fn drive(d: &mut Driver)
 	let mut jobs = Vec::new();
 	for k in 0..PUMP_KINDS.len()
 	{
-		for r in [1usize, 2, 3, 16, 126, 127]
+		// the limits of E390: 127 address markers, 127 access steps, and (since the repair of the
+		// second generation's recursion) 127 levels of nesting per declaration, which the first
+		// generation does not have: the nesting pumps stay below it (C15 probes the limit itself)
+		let reps: [usize; 6] = if k < 3 { [1, 2, 3, 16, 126, 127] } else { [1, 2, 3, 16, 100, 120] };
+		for r in reps
 		{
 			jobs.push(json!({"pump": k, "r": r}));
 		}
